@@ -189,6 +189,17 @@ func (g *G) Valid(t *spec.Type, v *spec.Val, loc Loc, depth int) any {
 		if m.MaxLen != nil && n > *m.MaxLen {
 			n = *m.MaxLen
 		}
+		if loc != Body {
+			// outside the body the bytes travel verbatim as text: text of the location's alphabet
+			if m.MinLen == nil && m.MaxLen == nil {
+				return vtree.Y([]byte(g.str(loc)))
+			}
+			t := make([]byte, n)
+			for i := range t {
+				t[i] = byte('a' + g.R.Intn(26))
+			}
+			return vtree.Y(t)
+		}
 		b := make([]byte, n)
 		for i := range b {
 			b[i] = byte(g.R.Intn(256))
